@@ -115,6 +115,20 @@ fn families(quick: bool) -> Vec<LmFamily> {
             named: false,
         });
     }
+    // one-decimal coefficients (not representable in binary): every solver's tolerances meet rounding residues
+    v.push(LmFamily {
+        name: "F8-decimals-n2m2",
+        n: 2,
+        m: 2,
+        doms: vec![Dom::NonNeg],
+        coefs: vec![-0.3, 0.0, 0.1, 0.2, 0.4],
+        rhss: vec![0.3, 2.0],
+        rels: vec![Rel::Le, Rel::Ge],
+        objs: vec![0.5, 1.0],
+        senses: vec![Sense::Max],
+        offsets: vec![0.0],
+        named: false,
+    });
     v.push(LmFamily {
         name: "F5-milp-n3m1",
         n: 3,
